@@ -18,6 +18,31 @@ CLAIMED = {
         note="Trusted: Coq kernel + vm_compute; hand-written model tied by differential testing (generator-bounded, "
              "tolerance 2e-5 of case scale); Q models f32 (rounding not modelled); runner and Python driver.",
         technique="Coq proof over Qc model (induction over steps/components, lra/nra scalar lemmas) + model/impl correspondence + oracle search"),
+    "C02": dict(
+        text="Machine-checked refinement: every per-step vector, annual value, weighted-energy term (step A, step B, "
+             "delivered, exported A, AB), service share and the derived cogeneration factor reported by the model "
+             "equals the corresponding closed expression of Spec/Iso52000.v, a flat statement of EN ISO 52000-1 (2), "
+             "(9)-(14), (20)-(28), (32), E.3.6 over the component list (theorems C02_flows, C02_weighted, "
+             "C02_cogeneration_factor, C02_building); the model reproduces the published results of ISO/TR 52000-2 "
+             "J1-J9 by evaluation (Golden.v). Tie to the code: every numeric field of EnergyPerformance is compared "
+             "with the model on generated buildings x factor sets (regulatory and all-distinct user files) x k_exp x "
+             "area x load matching; a disagreement is reported as a violation with the shrunk input.",
+        design_ref="DESIGN.md §6 C02",
+        note="Trusted: Coq kernel + vm_compute; my reading of the standard in Spec/Iso52000.v (anchored by J1-J9); "
+             "model tied to code by differential testing within tolerance; Q models f32.",
+        technique="Coq refinement proof model = flat ISO 52000-1 spec + golden examples by vm_compute + model/impl correspondence on all fields"),
+    "C04": dict(
+        text="Machine-checked theorems: EPB use by service (per carrier and building), production by source, "
+             "produced-and-used energy by source split by service, delivered = grid + on-site + cogeneration input, "
+             "exported = grid + nEPB, weighted energy by service = sum over carriers with EPB use, all add up to their "
+             "totals for every component list; per-m2 rows are the absolute rows times 1/area = divided by area "
+             "(area >= 0.001), same keys; RER values, k_exp, components and the absolute balance do not depend on the "
+             "area (C04_area_only: evaluation at area a = evaluation at a' with the area field replaced). Totals over "
+             "carriers are sums by definition of the model; that the implementation's accumulators compute them is "
+             "checked by correspondence and by recomputing every total from balance_cr on implementation outputs.",
+        design_ref="DESIGN.md §6 C04",
+        note="Trusted: Coq kernel + vm_compute; hand-written model tied by differential testing; Q models f32.",
+        technique="Coq proof (sum exchange over carriers/services/sources, induction over components) + correspondence + recomputation oracle"),
     "C03": dict(
         text="Machine-checked theorems: k_exp enters the model of energy_performance only through the final combination "
              "we_of_parts (theorem C03_k_only: the evaluation at k equals the evaluation at any k' with the k field "
